@@ -59,6 +59,19 @@ Proof.
   split; [apply (inv_le_state d _ t L It)|apply views_le; assumption].
 Qed.
 
+(* after any history, IntermediateRoot leaves a flushed state, on which a further
+   IntermediateRoot changes nothing *)
+Lemma iroot_transparent d s l de : DbOk d -> Inv d s ->
+  let ds := crun (d, s) l in
+  let t := iroot (fst ds) de (snd ds) in
+  Inv (fst ds) t /\ Flushed t /\
+  forall de', roots (iroot (fst ds) de' t) = roots t /\ state_eq (fst ds) (iroot (fst ds) de' t) (fst ds) t.
+Proof.
+  intros D I. cbn zeta. destruct (crun_inv l (d, s) D I) as (D1 & I1).
+  destruct (iroot_spec _ de _ D1 I1) as (It & Ft). split; [exact It|]. split; [exact Ft|].
+  intros de'. destruct (iroot_idempotent (fst (crun (d, s) l)) de' _ Ft) as (R & E & _). auto.
+Qed.
+
 (* ---- committed tries stay openable: reopening ANY earlier commit --------------------------------- *)
 (* every committed top-level trie is stored under its own root and is well formed *)
 Record DbTop (d : database) : Prop := {
